@@ -1681,7 +1681,7 @@ func (w *joeWorld) probes() {
 func init() {
 	real := []string{"sse.Joe (Subscribe, Publish, Shutdown, loop goroutine), instrumented copy", "sse.FiniteReplayer / sse.ValidReplayer behind the recording wrapper", "sse.Message", "context", "Go runtime channels and select (ordered try phase generated)"}
 	stub := []string{"subscribers (MessageWriter) with fault plans", "recording / fault-injecting Replayer wrapper (linearisation witness)", "scheduler: synctest bubble + generated yield points"}
-	common := "each evaluation draws a scenario (replayer: none at all (Joe's built-in no-op) / recording wrapper only / real FiniteReplayer / real ValidReplayer with a huge or a real TTL on the fake clock; ID mode; 1-3 publishers with up to 12 messages over topic subsets of {\"\",a,b,c}, 1-4 subscribers with topics / presented Last-Event-ID / slowness, cancellers, Shutdown tasks) and a schedule (which parked task runs next, select case order, map iteration order, optional time ticks), all from the run's choice trace. "
+	common := "each evaluation draws a scenario (replayer: none at all (Joe's built-in no-op) / recording wrapper only / real FiniteReplayer / real ValidReplayer with a huge or a real TTL on the fake clock; ID mode; 1-3 publishers with up to 12 messages over topic subsets of {\"\",a,b,c} (sometimes with a repeated topic, an odd glued-together name, prefixes of one shared array, no topic at all; one run in 20 over a universe of a hundred names with up to 90 per subscription), 1-4 subscribers with topics / presented Last-Event-ID / slowness / contexts of several kinds (one run in 40 of C03, C06, C07: a crowd of 64-70, most of which leave again), cancellers, Shutdown tasks) and a schedule (which parked task runs next, select case order, map iteration order, optional time ticks), all from the run's choice trace. "
 	nontriv := " Non-trivial: at least one delivery and more than 20 scheduler steps; distinct = distinct (scenario, scheduling-decision hash)."
 	assum := []string{
 		"interleavings at the granularity of channel operations, select statements, lock operations and simulated-party calls",
